@@ -14,6 +14,7 @@ def step : List String → String
     | some seq, some t => (match cosAccept seq t (chainOk == "1") (intact == "1") with | some s => s!"accept {s}" | none => s!"reject {seq}")
     | _, _ => "bad-op"
   | "mut" :: _ => "not-for-signer"
+  | "vconv" :: _ => "skip"
   | _ => "bad-op"
 
 end Haqq.Driver.C03
